@@ -172,6 +172,10 @@ def term(expr: ast.AST | None, env: dict[str, Term] | None = None) -> Term:
             return ('comp', elt, ((tgt, args[1], ()),))
         if isinstance(f, ast.Name) and f.id == 'list' and len(args) == 1 and not kwargs and args[0][0] == 'comp' and isinstance(expr.args[0], (ast.GeneratorExp, ast.Call)):
             return args[0]
+        # all(jax.tree.leaves(t)) is jax.tree.all(t)
+        tree_ns = ('attr', ('var', 'jax'), 'tree')
+        if isinstance(f, ast.Name) and f.id in ('all', 'any') and len(args) == 1 and not kwargs and args[0][0] == 'call' and args[0][1] == ('attr', tree_ns, 'leaves') and len(args[0][2]) == 1 and not args[0][3]:
+            return ('call', ('attr', tree_ns, f.id), args[0][2], ())
         if isinstance(f, (ast.Name, ast.Attribute)):
             simple = f.id if isinstance(f, ast.Name) else f.attr
             args, kwargs = _positional(simple, args, kwargs)
@@ -551,3 +555,53 @@ def predicate_alternatives(world, module, fs: set[tuple], depth: int = 2) -> lis
         if ways:
             alts = [a | w for a in alts for w in ways]
     return alts
+
+
+class NotEvaluable(Exception):
+    pass
+
+
+def eval_term(t: Term, env: dict[Term, int]):
+    """Value of an integer / boolean term built from comparisons, boolean connectives and integer arithmetic, under an
+    assignment of integers to its free terms.  Used to decide the equivalence of two guards by enumerating the finitely
+    many orderings of the quantities they compare (a guard that only *compares* its operands cannot tell two
+    assignments of the same order type apart)."""
+    if t in env:
+        return env[t]
+    if not isinstance(t, tuple) or not t:
+        raise NotEvaluable(repr(t))
+    k = t[0]
+    if k == 'const':
+        try:
+            v = eval(t[1], {})  # a literal
+        except Exception as exc:  # noqa: BLE001
+            raise NotEvaluable(t[1]) from exc
+        if isinstance(v, (int, bool)):
+            return v
+        raise NotEvaluable(t[1])
+    if k == 'cmp':
+        a, b = eval_term(t[2], env), eval_term(t[3], env)
+        return {'lt': a < b, 'le': a <= b, 'gt': a > b, 'ge': a >= b, 'eq': a == b, 'ne': a != b}.get(t[1]) if t[1] in ('lt', 'le', 'gt', 'ge', 'eq', 'ne') else _ne(t)
+    if k == 'chain':
+        vals = [eval_term(x, env) for x in t[2:]]
+        ok = True
+        for op, a, b in zip(t[1], vals, vals[1:]):
+            ok = ok and {'lt': a < b, 'le': a <= b, 'gt': a > b, 'ge': a >= b, 'eq': a == b, 'ne': a != b}[op]
+        return ok
+    if k == 'and':
+        return all(bool(eval_term(x, env)) for x in t[1:])
+    if k == 'or':
+        return any(bool(eval_term(x, env)) for x in t[1:])
+    if k == 'unop':
+        v = eval_term(t[2], env)
+        return (not v) if t[1] == 'not' else (-v if t[1] == 'neg' else v)
+    if k == 'binop' and t[1] in ('+', '-', '*'):
+        a, b = eval_term(t[2], env), eval_term(t[3], env)
+        return a + b if t[1] == '+' else a - b if t[1] == '-' else a * b
+    if k == 'ifexp':
+        return eval_term(t[2], env) if eval_term(t[1], env) else eval_term(t[3], env)
+    raise NotEvaluable(show(t))
+
+
+def _ne(t):
+    raise NotEvaluable(show(t))
